@@ -95,6 +95,12 @@ func (st *programState) runBalancesQuery() error {
 	// merge the fetched balances into the cache: balances fetched by previous queries are kept,
 	// and the numbers are copied so that the store's own data is never written to
 	for accountName, accountBalances := range balances {
+		// the balance of @world is never asked for (see batchQuery): it must not be learned
+		// from a store that answers more than it was asked either
+		if accountName == "world" {
+			continue
+		}
+
 		cachedAccountBalances := defaultMapGet(st.CachedBalances, accountName, func() AccountBalance {
 			return AccountBalance{}
 		})
